@@ -468,7 +468,7 @@ End Model.
 (* writeIndexFile goes through writeFileAtomic = open(O_EXCL) a sibling, write, close, rename *)
 Definition src_inplace : bool :=
   negb (list_eqb str_eqb calls_write_index [b "writeFileAtomic"] &&
-        list_eqb str_eqb calls_write_atomic [b "os.OpenFile"; b "f.Write"; b "f.Close"; b "os.Rename"]).
+        list_eqb str_eqb calls_write_atomic [b "os.OpenFile"; b "f.Write"; b "f.Close"; b "os.Rename"; b "os.Remove"]).
 (* Store.delete: saveIndex before storage.Delete *)
 Definition src_unlink_first : bool :=
   negb (list_eqb str_eqb calls_delete [b "s.saveIndex"; b "s.storage.Delete"]).
@@ -494,7 +494,12 @@ Definition src_guards_ok : bool :=
   (* GC: save iff AutoSaveIndex; remove exactly the unreachable *)
   guard_eqb guards_gc [(b "s.saveIndex", [b "s.AutoSaveIndex"]);
                        (b "os.Remove", [b "!reachableNodes.Contains(blobDigest)"])] &&
-  guard_eqb guards_saveindex [(b "s.saveIndex", [])].
+  guard_eqb guards_saveindex [(b "s.saveIndex", [])] &&
+  (* writeFileAtomic: rename iff everything before succeeded, the temp is removed only on error *)
+  guard_eqb guards_write_atomic [(b "os.Rename", [b "err == nil"]); (b "os.Remove", [b "err != nil"])] &&
+  (* Storage.Push: the temp is removed only when the rename failed *)
+  guard_eqb guards_storage_push [(b "ensureDir", []); (b "s.ingest", []); (b "os.Rename", []);
+                                 (b "os.Remove", [b "err != nil"])].
 
 (* ensureOCILayoutFile writes oci-layout through writeFileAtomic *)
 Definition src_layout_inplace : bool :=
